@@ -92,6 +92,7 @@ package op
 //@        && (createAccessToken ==> callarg("op.CreateAccessToken", 1) == request && callarg("op.CreateIDToken", 4) == callres("op.CreateAccessToken", 0)
 //@                                && result0.AccessToken == callres("op.CreateAccessToken", 0))
 //@   ensures id-token-returned: err == nil ==> result0.IDToken == callres("op.CreateIDToken", 0)
+//@   ensures implicit-state: err == nil && implements(request, "AuthRequest") && code == "" ==> result0.State == as(request, "AuthRequest").GetState()
 //@   ensures storage-fail-closed: !old(storageFailed) && storageFailed ==> err != nil
 
 //@ func op.ParseRefreshTokenRequest
@@ -378,11 +379,6 @@ package op
 // responseURLFor(url, redirectURI) is *defined* as "AuthResponseURL built url from redirectURI"
 // (that scheme, host, path and existing query are kept is C11).
 //@ spec func responseURLFor(url string, redirectURI string) bool
-//@ func op.AuthResponseURL
-//@   requires valid(encoder)
-//@   modifies os(encoder)
-//@   defines built: err == nil ==> responseURLFor(result0, redirectURI)
-//@   ensures fail-closed: err != nil ==> result0 == ""
 
 // Every redirect-enabled error is raised only after the redirect URI was validated.
 //@ func op.ValidateAuthRequestClient
@@ -407,12 +403,20 @@ package op
 //@   ensures responded: Resp_written[w]
 //@   defines error-answer: Resp_error[w]
 //@   ensures shown-directly: authReq == nil || authReq.GetRedirectURI() == "" || old(redirectDisabledErr(err)) ==> Resp_status[w] == 400
+//@   ensures error-params: called("op.AuthResponseURL") ==> typeis(callarg("op.AuthResponseURL", 3), "*oidc.Error")
+//@        && as(callarg("op.AuthResponseURL", 3), "*oidc.Error").State == authReq.GetState()
+//@        && as(callarg("op.AuthResponseURL", 3), "*oidc.Error").SessionState ==
+//@           ite(implements(authReq, "AuthRequestSessionState"), as(authReq, "AuthRequestSessionState").GetSessionState(), "")
 //@   ensures redirect-target: Resp_status[w] == 302 ==> authReq != nil && responseURLFor(Resp_location[w], authReq.GetRedirectURI())
 //@ func op.TryErrorRedirect
 //@   requires parent != nil && valid(encoder) && valid(logger)
 //@   requires validated-target: authReq == nil || authReq.GetRedirectURI() == "" || redirectDisabledErr(parent) || validatedRedirect(authReq.GetRedirectURI())
 //@   ensures either: (result0 == nil) != (result1 == nil)
 //@   ensures shown-directly: authReq == nil || authReq.GetRedirectURI() == "" || old(redirectDisabledErr(parent)) ==> result0 == nil
+//@   ensures error-params: called("op.AuthResponseURL") ==> typeis(callarg("op.AuthResponseURL", 3), "*oidc.Error")
+//@        && as(callarg("op.AuthResponseURL", 3), "*oidc.Error").State == authReq.GetState()
+//@        && as(callarg("op.AuthResponseURL", 3), "*oidc.Error").SessionState ==
+//@           ite(implements(authReq, "AuthRequestSessionState"), as(authReq, "AuthRequestSessionState").GetSessionState(), "")
 //@   ensures redirect-target: result0 != nil ==> authReq != nil && responseURLFor(result0.URL, authReq.GetRedirectURI())
 
 // The authorization endpoint (legacy router).
@@ -442,6 +446,26 @@ package op
 //@   requires validated: validatedRedirect(authReq.GetRedirectURI())
 //@   ensures redirect-target: Resp_status[w] == 302 ==> responseURLFor(Resp_location[w], authReq.GetRedirectURI())
 //@   ensures storage-fail-closed: !old(storageFailed) && storageFailed ==> Resp_status[w] >= 400 || Resp_error[w]
+//@   ensures code-response-code: called("op.AuthResponseURL") ==>
+//@           callarg("op.AuthResponseURL", 3, "dyn").Code == callres("op.CreateAuthRequestCode", 0)
+//@   ensures code-response-state: called("op.AuthResponseURL") ==>
+//@           callarg("op.AuthResponseURL", 3, "dyn").State == authReq.GetState()
+//@   ensures code-response-session: called("op.AuthResponseURL") ==>
+//@           callarg("op.AuthResponseURL", 3, "dyn").SessionState ==
+//@           ite(implements(authReq, "AuthRequestSessionState"), as(authReq, "AuthRequestSessionState").GetSessionState(), "")
+//@   ensures code-form-values: called("op.AuthResponseFormPost") ==>
+//@           callarg("op.AuthResponseFormPost", 2, "dyn").Code == callres("op.CreateAuthRequestCode", 0)
+//@        && callarg("op.AuthResponseFormPost", 2, "dyn").State == authReq.GetState()
+//@        && callarg("op.AuthResponseFormPost", 2, "dyn").SessionState ==
+//@           ite(implements(authReq, "AuthRequestSessionState"), as(authReq, "AuthRequestSessionState").GetSessionState(), "")
+//@        && callarg("op.AuthResponseFormPost", 1) == authReq.GetRedirectURI()
+//@   ensures response-url-args: called("op.AuthResponseURL") ==> callarg("op.AuthResponseURL", 0) == authReq.GetRedirectURI()
+//@        && callarg("op.AuthResponseURL", 1) == authReq.GetResponseType() && callarg("op.AuthResponseURL", 2) == authReq.GetResponseMode()
+//@   ensures mode-dispatch: called("op.CreateAuthRequestCode") && callres("op.CreateAuthRequestCode", 1) == nil ==>
+//@           (called("op.AuthResponseFormPost") <==> authReq.GetResponseMode() == oidc.ResponseModeFormPost)
+//@        && (called("op.AuthResponseURL") <==> authReq.GetResponseMode() != oidc.ResponseModeFormPost)
+//@   ensures location-is-built-url: called("op.AuthResponseURL") && callres("op.AuthResponseURL", 1) == nil ==>
+//@           Resp_status[w] == 302 && Resp_location[w] == callres("op.AuthResponseURL", 0)
 //@ func op.AuthResponseToken
 //@   requires !Resp_error[w] && !Resp_written[w] && valid(r) && valid(authorizer) && valid(w) && valid(authReq) && valid(client)
 //@   modifies Resp_written[w], Resp_status[w], Resp_location[w], Resp_body[w], Resp_error[w]
@@ -450,6 +474,20 @@ package op
 //@   requires validated: validatedRedirect(authReq.GetRedirectURI())
 //@   ensures redirect-target: Resp_status[w] == 302 ==> responseURLFor(Resp_location[w], authReq.GetRedirectURI())
 //@   ensures storage-fail-closed: !old(storageFailed) && storageFailed ==> Resp_status[w] >= 400 || Resp_error[w]
+//@   ensures token-response-values: called("op.AuthResponseURL") ==>
+//@           callarg("op.AuthResponseURL", 3, "dyn") == callres("op.CreateTokenResponse", 0) && callres("op.CreateTokenResponse", 1) == nil
+//@   ensures token-form-values: called("op.AuthResponseFormPost") ==>
+//@           callarg("op.AuthResponseFormPost", 2, "dyn") == callres("op.CreateTokenResponse", 0) && callres("op.CreateTokenResponse", 1) == nil
+//@        && callarg("op.AuthResponseFormPost", 1) == authReq.GetRedirectURI()
+//@   ensures implicit-response: called("op.CreateTokenResponse") && callarg("op.CreateTokenResponse", 1) == authReq
+//@        && callarg("op.CreateTokenResponse", 5) == "" && callarg("op.CreateTokenResponse", 6) == ""
+//@   ensures response-url-args: called("op.AuthResponseURL") ==> callarg("op.AuthResponseURL", 0) == authReq.GetRedirectURI()
+//@        && callarg("op.AuthResponseURL", 1) == authReq.GetResponseType() && callarg("op.AuthResponseURL", 2) == authReq.GetResponseMode()
+//@   ensures mode-dispatch: callres("op.CreateTokenResponse", 1) == nil ==>
+//@           (called("op.AuthResponseFormPost") <==> authReq.GetResponseMode() == oidc.ResponseModeFormPost)
+//@        && (called("op.AuthResponseURL") <==> authReq.GetResponseMode() != oidc.ResponseModeFormPost)
+//@   ensures location-is-built-url: called("op.AuthResponseURL") && callres("op.AuthResponseURL", 1) == nil ==>
+//@           Resp_status[w] == 302 && Resp_location[w] == callres("op.AuthResponseURL", 0)
 
 // The authorization endpoint (Server interface router): the Server's Authorize method is reached
 // only with a validated redirect URI, and may redirect errors only there.
@@ -680,11 +718,18 @@ package op
 //@   ensures hint-key-set: callarg("op.NewIDTokenHintVerifier", 1) == old(o.idTokenHinKeySet)
 //@   ensures fresh-verifier: result == callres("op.NewIDTokenHintVerifier", 0)
 
-// Frame of the query-merging helper (its functional behaviour is C11's subject): only *uri changes.
+// Query mode: the response parameters are added to the parameters the redirect URI already has
+// (uri.Query() is the base the loop adds to), the merged set is encoded ONCE into RawQuery, and the
+// result is the URL rendered after that; only *uri changes.
 //@ func op.mergeQueryParams
 //@   requires valid(uri)
 //@   modifies *uri
-//@   trusted
+//@   ensures base-is-registered-query: callarg("net/url.URL.Query", 0) == uri
+//@   ensures merged-set-encoded-once: uri.RawQuery == callres("net/url.Values.Encode", 0)
+//@        && callarg("net/url.Values.Encode", 0) == callres("net/url.URL.Query", 0)
+//@   ensures rendered-after-merge: result == callres("net/url.URL.String", 0) && callarg("net/url.URL.String", 0) == uri
+//@   ensures only-query-changes: uri.Scheme == old(uri.Scheme) && uri.Host == old(uri.Host) && uri.Path == old(uri.Path)
+//@        && uri.RawPath == old(uri.RawPath) && uri.Fragment == old(uri.Fragment) && uri.User == old(uri.User) && uri.Opaque == old(uri.Opaque)
 
 //@ func op.ValidateEndSessionRequest
 //@   requires valid(req) && valid(ender)
@@ -1059,3 +1104,48 @@ package op
 //@ func op.removeUserinfoScopes
 //@   modifies nothing
 //@   ensures no-userinfo-scopes: forall k int :: 0 <= k && k < len(result) ==> result[k] != oidc.ScopeProfile && result[k] != oidc.ScopeEmail && result[k] != oidc.ScopeAddress && result[k] != oidc.ScopePhone
+
+// ---- C11: authorization response encoding ----
+
+// Fragment mode: the redirect URI (without any fragment of its own) followed by '#' and ONE
+// application of url.Values.Encode to the response parameters.
+//@ func op.setFragment
+//@   requires valid(uri)
+//@   modifies uri.Fragment, uri.RawFragment
+//@   ensures single-encoding: result == concat(callres("net/url.URL.String", 0), "#", callres("net/url.Values.Encode", 0))
+//@        && callarg("net/url.Values.Encode", 0) == params && callarg("net/url.URL.String", 0) == uri
+//@   ensures own-fragment-dropped: uri.Fragment == "" && uri.RawFragment == ""
+
+// Mode selection (from the statement): explicit query / fragment, else fragment for the implicit
+// response types, else query; the parameters are the schema encoding of the response value.
+//@ func op.AuthResponseURL
+//@   requires valid(encoder)
+//@   modifies os(encoder)
+//@   defines built: err == nil ==> responseURLFor(result0, redirectURI)
+//@   ensures fail-closed: err != nil ==> result0 == ""
+//@   ensures own-error: err != nil ==> typeis(err, "*oidc.Error") && fresh(as(err, "*oidc.Error"))
+//@   ensures parsed-target: err == nil ==> callarg("net/url.Parse", 0) == redirectURI && callarg("httphelper.URLEncodeParams", 0) == response
+//@   ensures query-mode: err == nil && (responseMode == oidc.ResponseModeQuery || (responseMode != oidc.ResponseModeFragment && responseType != oidc.ResponseTypeIDToken && responseType != oidc.ResponseTypeIDTokenOnly))
+//@        ==> calledAny("op.mergeQueryParams") && !calledAny("op.setFragment")
+//@   ensures query-result: err == nil && (responseMode == oidc.ResponseModeQuery || (responseMode != oidc.ResponseModeFragment && responseType != oidc.ResponseTypeIDToken && responseType != oidc.ResponseTypeIDTokenOnly))
+//@        ==> result0 == lastres("op.mergeQueryParams", 0)
+//@   ensures query-args: err == nil && (responseMode == oidc.ResponseModeQuery || (responseMode != oidc.ResponseModeFragment && responseType != oidc.ResponseTypeIDToken && responseType != oidc.ResponseTypeIDTokenOnly))
+//@        ==> lastarg("op.mergeQueryParams", 0) == callres("net/url.Parse", 0) && lastarg("op.mergeQueryParams", 1) == callres("httphelper.URLEncodeParams", 0)
+//@   ensures fragment-mode: err == nil && !(responseMode == oidc.ResponseModeQuery || (responseMode != oidc.ResponseModeFragment && responseType != oidc.ResponseTypeIDToken && responseType != oidc.ResponseTypeIDTokenOnly))
+//@        ==> calledAny("op.setFragment") && !calledAny("op.mergeQueryParams")
+//@   ensures fragment-result: err == nil && !(responseMode == oidc.ResponseModeQuery || (responseMode != oidc.ResponseModeFragment && responseType != oidc.ResponseTypeIDToken && responseType != oidc.ResponseTypeIDTokenOnly))
+//@        ==> result0 == lastres("op.setFragment", 0)
+//@   ensures fragment-args: err == nil && !(responseMode == oidc.ResponseModeQuery || (responseMode != oidc.ResponseModeFragment && responseType != oidc.ResponseTypeIDToken && responseType != oidc.ResponseTypeIDTokenOnly))
+//@        ==> lastarg("op.setFragment", 0) == callres("net/url.Parse", 0) && lastarg("op.setFragment", 1) == callres("httphelper.URLEncodeParams", 0)
+
+// form_post: values reach the page only through html/template's contextual escaping.
+//@ func op.AuthResponseFormPost
+//@   requires valid(res) && valid(encoder) && !Resp_written[res]
+//@   modifies os(encoder), Resp_written[res], Resp_status[res], Resp_body[res], Resp_location[res], Resp_error[res]
+//@   ensures own-error: err != nil ==> typeis(err, "*oidc.Error") && fresh(as(err, "*oidc.Error"))
+//@   ensures page-status: Resp_status[res] == 200 || (!Resp_written[res] && Resp_status[res] == old(Resp_status[res]))
+//@   ensures ok-written: err == nil ==> Resp_written[res] && Resp_status[res] == 200
+//@   ensures no-redirect: Resp_location[res] == old(Resp_location[res])
+//@   ensures html-template: globalType("op.formPostTmpl", "*html/template.Template")
+//@   ensures rendered-by-template: err == nil ==> called("html/template.Template.Execute") && callres("html/template.Template.Execute", 0) == nil
+//@        && callarg("html/template.Template.Execute", 0) == formPostTmpl
